@@ -32,6 +32,13 @@ inductive CmpTok where
   | lt | le | gt | ge | eq | ne | other (s : String)
   deriving DecidableEq, Repr, Inhabited
 
+/-- how `representableConst` bounds a constant for the signed integer kinds -/
+inductive ReprMode where
+  | bitLen          -- `constant.BitLen(x) <= bitlen[kind]` (the sign is ignored: F03)
+  | exactRange      -- `-1<<(s-1) <= v && v <= 1<<(s-1)-1` with `s = bitlen[kind]`
+  | other (s : String)
+  deriving DecidableEq, Repr, Inhabited
+
 structure OpFacts where
   /-- typecheck.go `unaryOpPredicates`: action ↦ disjunction of predicate names -/
   unary : List (Action × List PredName)
@@ -43,6 +50,8 @@ structure OpFacts where
   predCalls : List (PredName × List PredName)
   /-- typecheck.go `bitlen` -/
   bitlen : List (Kind × Nat)
+  /-- typecheck.go `representableConst`, signed arm -/
+  signedRepr : ReprMode
   deriving DecidableEq, Repr
 
 def lookup {α β : Type} [DecidableEq α] (k : α) : List (α × β) → Option β
@@ -244,14 +253,24 @@ def fitsBitLen (F : OpFacts) (k : Kind) (v : Int) : Bool :=
   | some n => v.natAbs < 2 ^ n
   | none => false
 
+/-- exact signed range of the width given by `bitlen` -/
+def fitsSigned (F : OpFacts) (k : Kind) (v : Int) : Bool :=
+  match lookup k F.bitlen with
+  | some (n + 1) => decide (-(2 ^ n : Int) ≤ v) && decide (v < (2 ^ n : Int))
+  | _ => false
+
 /-- `representableConst(c, t)` for the constant values of the fragment -/
 def representableConstY (F : OpFacts) (c : CVal) (k : Kind) : Bool :=
   if predOk F .isInt k then
     match c with
     | .int v | .float v false =>
-      (if k.isSigned then decide (-(2:Int)^63 ≤ v ∧ v < 2^63)
-       else if k.isUnsigned then decide (0 ≤ v ∧ v < 2^64)
-       else false) && fitsBitLen F k v
+      if k.isSigned then
+        (match F.signedRepr with
+         | .bitLen => decide (-9223372036854775808 ≤ v) && decide (v < 9223372036854775808) && fitsBitLen F k v
+         | .exactRange => decide (-9223372036854775808 ≤ v) && decide (v < 9223372036854775808) && fitsSigned F k v
+         | .other _ => false)
+      else if k.isUnsigned then decide (0 ≤ v) && decide (v < 18446744073709551616) && fitsBitLen F k v
+      else false
     | _ => false
   else if predOk F .isFloat k || predOk F .isComplex k then
     match c with
@@ -264,27 +283,34 @@ def representableConstY (F : OpFacts) (c : CVal) (k : Kind) : Bool :=
 def assignableElemY (a b : STy) : Bool :=
   a == b || (!(a.isNamed && b.isNamed) && a.under == b.under)
 
-/-- `itype.assignableTo`; `rv` is the value held by the node the type is attached to -/
-def assignableToY (F : OpFacts) (t o : Ty) (rv : RVal) : Res Bool := do
-  if equalsT t o then return true
-  if isLinked t && isLinked o then return false
-  if t.isNil then
-    if ← hasNilT o then return true
-  if o.isNil then
-    if ← hasNilT t then return true
-  match t.rtype?, o.rtype? with
-  | none, _ => .crash
-  | _, none => .crash
-  | some rt, some ro =>
-    if rAssignable rt ro then return true
-    if o.isIface && subset o.methods t.methods then return true
-    match t, o with
-    | .slice a, .slice b => return assignableElemY a b
+/-- the tail of `assignableTo`, once both reflect types are known -/
+def assignableTailY (F : OpFacts) (t o : Ty) (rv : RVal) (rt ro : RTy) : Bool :=
+  if rAssignable rt ro then true
+  else if o.isIface && subset o.methods t.methods then true
+  else match t, o with
+    | .slice a, .slice b => assignableElemY a b
     | _, _ =>
-      if t.isUntyped && isNumberT F t && isNumberT F o then return true
-      match rv with
-      | .const c => return (isConstTypeT F o && representableConstY F c ro.kind)
-      | _ => return false
+      if t.isUntyped && isNumberT F t && isNumberT F o then true
+      else match rv with
+        | .const c => isConstTypeT F o && representableConstY F c ro.kind
+        | _ => false
+
+/-- `itype.assignableTo`; `rv` is the value held by the node the type is attached to -/
+def assignableToY (F : OpFacts) (t o : Ty) (rv : RVal) : Res Bool :=
+  if equalsT t o then .ok true
+  else if isLinked t && isLinked o then .ok false
+  else
+    match (if t.isNil then hasNilT o else .ok false) with
+    | .ok true => .ok true
+    | .ok false =>
+      (match (if o.isNil then hasNilT t else .ok false) with
+       | .ok true => .ok true
+       | .ok false =>
+         (match t.rtype?, o.rtype? with
+          | some rt, some ro => .ok (assignableTailY F t o rv rt ro)
+          | _, _ => .crash)            -- AssignableTo on / of the nil reflect.Type
+       | .err => .err | .crash => .crash | .abstain => .abstain)
+    | .err => .err | .crash => .crash | .abstain => .abstain
 
 /-- `itype.convertibleTo` -/
 def convertibleToY (F : OpFacts) (t o : Ty) (rv : RVal) : Res Bool := do
@@ -325,15 +351,20 @@ def convertUntypedY (F : OpFacts) (n : Opnd) (typ : Ty) : Res Opnd :=
         (if n.ty.isNil then .ok n else .err)
       else .err
 
+/-- `ok` / `err` from a Boolean decision -/
+def okIf (b : Bool) : Res Unit := if b then .ok () else .err
+
 /-- `typecheck.assignment(n, typ, ctx)` with `typ` present -/
-def assignmentY (F : OpFacts) (n : Opnd) (typ : Ty) : Res Unit := do
-  let mut n := n
-  let mut typ := typ
-  if n.ty.isNil && isInterfaceT typ then return ()     -- defaultType of nil is nil itself
-  if n.ty.isUntyped then
-    if isInterfaceT typ then typ := defaultTypeY n.ty
-    n ← convertUntypedY F n typ
-  if ← assignableToY F n.ty typ n.rv then .ok () else .err
+def assignmentY (F : OpFacts) (n : Opnd) (typ : Ty) : Res Unit :=
+  if n.ty.isNil && isInterfaceT typ then .ok ()          -- defaultType of nil is nil itself
+  else
+    let typ' := if n.ty.isUntyped && isInterfaceT typ then defaultTypeY n.ty else typ
+    match (if n.ty.isUntyped then convertUntypedY F n typ' else .ok n) with
+    | .ok n' =>
+      (match assignableToY F n'.ty typ' n'.rv with
+       | .ok b => okIf b
+       | .err => .err | .crash => .crash | .abstain => .abstain)
+    | .err => .err | .crash => .crash | .abstain => .abstain
 
 /-! ### the rules of each context -/
 
